@@ -79,12 +79,13 @@ def law(law, runner, vals, **kw):
     if law == "index":
         n, k = kw["n"], vals["k"]
         l = lst("l", n)
-        kd, r = _run("l[k]", runner, {"l": cel_list(l), "k": I(k)})
-        if 0 <= k < n:
-            if kd != "value" or int(r) != l[k]:
-                return fail(f"l[{k}] expected {l[k]}, got {kd} {r!r}")
-        elif kd != "error":
-            return fail(f"index {k} of a list of size {n} must be an error, got {kd} {r!r}")
+        for src, els in (("l[k]", l), ("(l + l)[k]", l + l), ("l.map(x, x)[k]", l), ("l.filter(x, true)[k]", l), ("([0] + l)[k]", [0] + l), ("[l, l][1][k]", l)):
+            kd, r = _run(src, runner, {"l": cel_list(l), "k": I(k)})
+            if 0 <= k < len(els):
+                if kd != "value" or int(r) != els[k]:
+                    return fail(f"`{src}` with k={k} expected {els[k]}, got {kd} {r!r}")
+            elif kd != "error":
+                return fail(f"`{src}`: index {k} of a list of size {len(els)} must be an error, got {kd} {r!r}")
         return True, "ok"
     if law == "concat":
         n, m = kw["n"], kw["m"]
